@@ -96,6 +96,14 @@ CHECKS = {
         "A Twp/Rge without E/W is always followed by a section keyword (text starting with E/W there is inherently ambiguous).",
         "DESIGN.md section 4 C08",
     ),
+    "C04": (
+        "seeded Hypothesis generation; metamorphic insertion of a foreign word at every kind of boundary x parse modes; conservation invariant",
+        "A foreign word (fixed marker, random alphabetic word, or an ordinary deed word that collides with pattern fragments) is inserted at any "
+        "token or punctuation boundary of well-formed and damaged descriptions under eleven parse modes; it must reappear in a tract "
+        "description or an unused_desc error flag. On undamaged descriptions every block word must survive in every mode.",
+        "Words never full-match a PLSS keyword (harness table); a word starting with n/s/e/w is not placed directly after a number; words ending in a section keyword are not used.",
+        "DESIGN.md section 4 C04",
+    ),
 }
 
 NOT_BUILT = {}
